@@ -971,8 +971,14 @@ where
             io::copy(reader, &mut hold)?;
             hold.into_trailer()?
         };
+        #[cfg(feature = "verif-hooks")]
+        crate::verif_hooks::probe("svs.before_flush", 0);
         guard.file_mut().flush()?;
+        #[cfg(feature = "verif-hooks")]
+        crate::verif_hooks::probe("svs.before_sync", 0);
         guard.file_mut().sync_all()?;
+        #[cfg(feature = "verif-hooks")]
+        crate::verif_hooks::probe("svs.after_sync", 0);
         Ok((guard, digest, trailer))
     })?;
     // The stream terminated cleanly (a truncation would have surfaced as the pull
@@ -1195,8 +1201,14 @@ where
                 "svs: stream ended without a final chunk",
             )));
         }
+        #[cfg(feature = "verif-hooks")]
+        crate::verif_hooks::probe("svs.before_flush", 0);
         guard.file_mut().flush()?;
+        #[cfg(feature = "verif-hooks")]
+        crate::verif_hooks::probe("svs.before_sync", 0);
         guard.file_mut().sync_all()?;
+        #[cfg(feature = "verif-hooks")]
+        crate::verif_hooks::probe("svs.after_sync", 0);
         Ok(())
     })();
 
@@ -1230,6 +1242,8 @@ struct TempFile {
 impl TempFile {
     fn create(path: &Path) -> Result<Self, RepeError> {
         let file = std::fs::File::create(path)?;
+        #[cfg(feature = "verif-hooks")]
+        crate::verif_hooks::probe("svs.temp_created", 0);
         Ok(Self {
             path: path.to_path_buf(),
             file: Some(file),
@@ -1242,8 +1256,12 @@ impl TempFile {
 
     fn commit(mut self, final_path: &Path) -> Result<(), RepeError> {
         self.file = None; // close before rename (Windows cannot rename an open file)
+        #[cfg(feature = "verif-hooks")]
+        crate::verif_hooks::probe("svs.before_rename", 0);
         match std::fs::rename(&self.path, final_path) {
             Ok(()) => {
+                #[cfg(feature = "verif-hooks")]
+                crate::verif_hooks::probe("svs.after_rename", 0);
                 self.path = final_path.to_path_buf(); // committed; Drop must not remove it
                 Ok(())
             }
@@ -1307,6 +1325,8 @@ impl<'a> ChunkReader<'a> {
             )
             .map_err(|e| io::Error::other(e.to_string()))?;
         let last = resp.query.first().copied() == Some(1);
+        #[cfg(feature = "verif-hooks")]
+        crate::verif_hooks::probe("svs.chunk_fetched", resp.body.len() as u64);
         self.buf = resp.body;
         self.pos = 0;
         if last {
@@ -1510,6 +1530,8 @@ async fn pull_loop_async<C: AsyncSvsClient>(
             )
             .await?;
         let last = resp.query.first().copied() == Some(1);
+        #[cfg(feature = "verif-hooks")]
+        crate::verif_hooks::probe("svs.chunk_fetched", resp.body.len() as u64);
         if !resp.body.is_empty() && tx.send(resp.body).await.is_err() {
             // Decoder is done and dropped the receiver; nothing left to feed.
             return Ok(());
@@ -1796,8 +1818,14 @@ pub async fn pull_to_file_async<C: AsyncSvsClient>(
     let (guard, bytes) = pull_consume_async(client, resource, move |mut reader| {
         let mut guard = TempFile::create(&tmp_path)?;
         let bytes = io::copy(&mut reader, guard.file_mut())?;
+        #[cfg(feature = "verif-hooks")]
+        crate::verif_hooks::probe("svs.before_flush", 0);
         guard.file_mut().flush()?;
+        #[cfg(feature = "verif-hooks")]
+        crate::verif_hooks::probe("svs.before_sync", 0);
         guard.file_mut().sync_all()?;
+        #[cfg(feature = "verif-hooks")]
+        crate::verif_hooks::probe("svs.after_sync", 0);
         Ok((guard, bytes))
     })
     .await?;
@@ -1841,8 +1869,14 @@ where
             };
             io::copy(&mut reader, &mut tee)?;
         }
+        #[cfg(feature = "verif-hooks")]
+        crate::verif_hooks::probe("svs.before_flush", 0);
         guard.file_mut().flush()?;
+        #[cfg(feature = "verif-hooks")]
+        crate::verif_hooks::probe("svs.before_sync", 0);
         guard.file_mut().sync_all()?;
+        #[cfg(feature = "verif-hooks")]
+        crate::verif_hooks::probe("svs.after_sync", 0);
         Ok((guard, digest))
     })
     .await?;
@@ -1915,8 +1949,14 @@ where
             io::copy(&mut reader, &mut hold)?;
             hold.into_trailer()?
         };
+        #[cfg(feature = "verif-hooks")]
+        crate::verif_hooks::probe("svs.before_flush", 0);
         guard.file_mut().flush()?;
+        #[cfg(feature = "verif-hooks")]
+        crate::verif_hooks::probe("svs.before_sync", 0);
         guard.file_mut().sync_all()?;
+        #[cfg(feature = "verif-hooks")]
+        crate::verif_hooks::probe("svs.after_sync", 0);
         Ok((guard, digest, trailer))
     })
     .await?;
